@@ -145,6 +145,13 @@ def run_check(mod, tier, seed, replay=None):
     ctx.driver_ok = db["ok"]
     if not db["ok"]:
         broken.append("build:driver %s" % (db["errors"][:1] or db["log"][-300:]))
+    # auxiliary executables of this property only (ops whose definitions live next to theorem modules)
+    ctx.aux_ok = {}
+    for exe in getattr(mod, "EXTRA_EXES", []):
+        xb = lean.build([exe])
+        ctx.aux_ok[exe] = xb["ok"]
+        if not xb["ok"] and b["ok"]:
+            broken.append("build:%s %s" % (exe, xb["errors"][:1] or xb["log"][-300:]))
 
     if tier == "thorough" and b["ok"] and getattr(mod, "LEANCHECKER", True):
         rc, out, dt = lean.sh(["lake", "env", "leanchecker"] + modules, timeout=3000)
